@@ -1026,6 +1026,15 @@ def gen_plan(seed: int, tier: str) -> dict:
             if dg and (prog in NEEDS_PARTIALS or rng.random() < 0.5):
                 prog = rng.choice(["gvprobe", "gvprobe", "counters", "condmacro"])
             st = {"op": "parse", "id": nid(), "h": hid, "env": ei, "src": STATEFUL[prog][0], "prog": prog}
+        elif r < 0.56:
+            # a source that fails to parse (or to lex): whatever the parser keeps from the failed
+            # attempt must not influence the next template parsed by the same environment
+            bad = rng.choice(["{% if %}x{% endif %}", "{{ a | }}", "{% for x in %}{% endfor %}", "{% assign = 1 %}",
+                              "{% endif %}", "{{ 'unterminated }}", "{% if a %}{% else %}{% else %}{% endif %}",
+                              "{% case %}{% endcase %}", "{{ a.b[ }}", "{% macro %}{% endmacro %}", "{% raw %}never closed",
+                              "{% block a %}{% block a %}{% endblock %}{% endblock %}{{ x | nosuchfilter }}",
+                              "{% liquid\nif\n%}", "{% translate %}{{ a.b }}{% endtranslate %}", "{{ \"${ }\" }}"])
+            st = {"op": "parse", "id": nid(), "h": hid, "env": ei, "src": bad, "prog": "bad"}
         elif r < 0.8 or dg:
             st = {"op": "parse", "id": nid(), "h": hid, "env": ei, "src": rng.choice(gen_progs), "prog": "gen"}
         else:
